@@ -164,6 +164,31 @@ func genC01(g *Gen) {
 	g.setMode(0)
 	g.addGrid(0.36)
 	g.wordAddGrid(0.16)
+	// the operand with the larger exponent has a coefficient just above the largest coefficient once it is scaled to 35
+	// digits (leading digits 1.2981 .. 1.45): the scaling loop must stop one step earlier for it than for any other operand,
+	// and an effective subtraction brings the result back below the limit; gaps 1..4, both operand orders, all modes
+	g.gridRun(120, 0.12, func(i int) {
+		lo, _ := new(big.Int).SetString("1298074214633706907132624082305024", 10)
+		span, _ := new(big.Int).SetString("151925785366293092867375917694976", 10) // up to 1.45e33
+		xc := new(big.Int).Add(lo, new(big.Int).Rand(g.r, span))
+		if i%4 == 0 {
+			xc = new(big.Int).Add(lo, big.NewInt(int64(g.r.Intn(1000))))
+		}
+		if i%8 == 1 { // fewer digits: the same leading digits at 20..33 digits
+			xc = new(big.Int).Div(xc, pow10(1+g.r.Intn(14)))
+		}
+		gap := 1 + i%4
+		e := g.r.Intn(41) - 20
+		neg := g.r.Intn(2) == 0
+		x := mk(neg, xc, e+gap)
+		y := mk(neg, randDigits(g.r, 34), e)
+		if i%3 == 0 {
+			y = mk(neg, g.fullCoef(), e)
+		}
+		g.allModes("Sub", x, y)
+		g.someModes("Sub", y, x, 2)
+		g.someModes("Add", x, y.Neg(), 2)
+	})
 	g.pairGrid(0.18, func(x, y d128.Decimal) { g.someModes(g.addSubOp(), x, y, 2) })
 	g.vanishGrid(0.1, func(x, y d128.Decimal) {
 		if g.r.Intn(2) == 0 {
